@@ -168,15 +168,21 @@ def evaluate(case: Dict[str, Any]) -> Dict[str, Any]:
         kwE, _, _ = build(case)
         kwE["jac"] = p.grad
         E = Run(kwE).execute()
-        if E.exc is None and not E.nonfinite() and E.result.success and r.success \
-                and "PGTOL" in E.result.message and "PGTOL" in r.message:
-            fe, ff = float(E.result.fun), float(r.fun)
+        # (whatever the message of the finite-difference run: with these budgets it has no excuse for stopping far from the solution)
+        sc = shell.scale_of(run)
+        budget_stop = ("ITERATIONS" in r.message) or ("EVALUATIONS" in r.message)
+        if E.exc is None and not E.nonfinite() and E.result.success and "PGTOL" in E.result.message and not budget_stop \
+                and sc > 0 and np.isfinite(sc):
+            fe, ff = float(E.result.fun) / sc, float(r.fun) / sc
             # accuracy of the scheme: gradient error ~ sqrt(eps) L (forward) / eps^(2/3) (central), times the stop tolerances
             L = p.L or 1.0
             tol = {"none": 1e-5, "2-point": 1e-5, "3-point": 1e-7, "cs": 1e-9}[mode]
-            tol = tol * (1.0 + abs(fe)) * max(1.0, L) + 10 * kw.get("ftol", 1e-5) * (1 + abs(fe)) + 10 * max(kw.get("gtol", 1e-5), 0) ** 2
+            tol = tol * (1.0 + abs(fe)) * max(1.0, L) + 10 * kw.get("ftol", 1e-5) * (1 + abs(fe)) + 10 * (max(kw.get("gtol", 1e-5), 0) / min(sc, 1.0)) ** 2
             if case.get("epsilon") is not None:
                 tol += 10 * float(case["epsilon"]) * max(1.0, L) * (1 + abs(fe))
+            if case.get("finite_diff_rel_step") is not None and mode != "none":
+                # a user-chosen relative step h: the differencing error is of order h (times the curvature and the size of x)
+                tol += 10 * float(case["finite_diff_rel_step"]) * max(1.0, L) * (1 + abs(fe))
             if not abs(ff - fe) <= tol:
                 out["prop"].append({"what": f"objective value of the {mode} run differs from the exact-gradient run beyond the accuracy of the scheme",
                                     "key": "", "detail": {"f_fd": ff, "f_exact": fe, "tol": tol, "msg_fd": r.message, "msg_exact": E.result.message}})
@@ -225,6 +231,10 @@ def run(tier: str, seed: int) -> int:
                              "small_budgets": False,
                              "override": {"maxiter": 200, "maxfun": 15000, "ftol": r.choice([1e-5, 0.0, 0.0]), "gtol": r.choice([1e-5, 1e-6])},
                              "compare": True}
+        if i % 5 == 1:
+            # ... and together with a gradient scaler (the differencing works on the unscaled objective)
+            feat["scaler"] = "const"
+            feat["s"] = r.choice([0.25, 0.5, 2.0, 4.0, 3.0, 0.1])
         k = i % 10
         if k == 7:
             c["tweak"] = "narrow"
@@ -244,8 +254,8 @@ def run(tier: str, seed: int) -> int:
         rule="runs in the four differencing modes on convex families and the package's benchmark functions, boxes with active bounds at the "
              "start / at the solution, narrow (1e-10..1e-6) and tiny-scale boxes, eps / rel_step settings: no exception, every evaluated point "
              "(stencils included) in the box exactly, nfev = objective calls, njev = gradients, value compared with the exact-gradient run on "
-             "convex problems; replayed through the Lean driver model; non-trivial = at least one iteration",
-        assumptions=["objectives finite on the box", "value comparison only when both runs stop on the projected-gradient test (ftol = 0)"])
+             "convex problems (whatever message the finite-difference run carries, budgets apart), a fifth of the runs with a constant gradient scaler; replayed through the Lean driver model; non-trivial = at least one iteration",
+        assumptions=["objectives finite on the box", "value comparison only when the exact-gradient run stops on the projected-gradient test (ftol = 0) and the finite-difference run is not stopped by a budget"])
 
 
 def replay(path: str) -> int:
